@@ -298,7 +298,22 @@ def r14_5(ctx):
             for e in p.events:
                 if e.kind == "call" and e.q and re.search(r"MichaelHash(Set|Map)::bucket$", e.q) and len(e.args) == 1:
                     m += 1
-                    ctx.check(any(_has(e.args[0], lambda s, k=k: s == k) for k in keyp), "R14.5", F, "an operation works on the bucket of its own key", e.node, detail=R, sig="own-bucket")
+                    # emplace: the key lives in the node / data object just built from the arguments
+                    built = [x.val for x in p.events if x.kind == "call" and x.q and re.search(r"::alloc_(node|data)$", x.q)]
+                    callmap = {x.val: x for x in p.events if x.kind == "call"}
+
+                    def derives(v, keys, d=0):
+                        if any(_has(v, lambda s, k=k: s == k) for k in keys):
+                            return True
+                        if d < 5 and v in callmap:
+                            x = callmap[v]
+                            return any(derives(a, keys, d + 1) for a in list(x.args) + ([x.obj] if x.obj is not None else []))
+                        return False
+                    own = derives(e.args[0], keyp + built)
+                    ctx.check(own, "R14.5", F, "an operation works on the bucket of its own key", e.node, detail=R, sig="own-bucket")
+                    if built and not derives(e.args[0], keyp):
+                        ins = [x for x in p.events if x.kind == "call" and x.q and x.q.endswith("::insert_node")]
+                        ctx.check(bool(ins) and all(x.args and x.args[0] in built for x in ins), "R14.5", F, "emplace inserts the node whose key selected the bucket", e.node, detail=R, sig="emplace-same-node")
     if m < 10:
         ctx.broken("MichaelHashSet operations routed through bucket(key) not found (%d)" % m)
 r14_5.rule_id = "R14.5"
